@@ -189,6 +189,54 @@ def run(ck):
                                      "model_guard": s.sc.interp.ask("(rmguard %s)" % job), "impl": real})
 
     s.after_apply.append(remove_model)
+    un_corr = {"same": 0, "differ": 0, "theorem_applies": 0, "outside_theorem_hypotheses": 0,
+               "not_comparable_inner_binders_renamed": 0}
+
+    def unroll_model(p, q, op, descr, site, replay):
+        # correspondence of UnrollLoop.unroll_proc (C01_unroll_proc) with the real Procedure.unroll_loop, for bodies
+        # without inner binders (the implementation alpha-renames the binders of every copy)
+        if op != "unroll_loop":
+            return
+        import ast, re
+        from exo.core.LoopIR import LoopIR as _L
+        m = re.match(r"N(\[.*?\])$", descr)
+        if not m:
+            return
+        node = p._loopir_proc
+        for attr, idx in ast.literal_eval(m.group(1)):
+            node = getattr(node, attr)[idx]
+
+        def has_binder(stmts):
+            for st in stmts:
+                if isinstance(st, (_L.For, _L.Alloc, _L.WindowStmt)):
+                    return True
+                if isinstance(st, _L.If) and (has_binder(st.body) or has_binder(st.orelse)):
+                    return True
+            return False
+
+        if has_binder(node.body):
+            un_corr["not_comparable_inner_binders_renamed"] += 1
+            return
+        name = s.sc.ref(p)
+        ex = s.sc.ex
+        job = "%s %s" % (name, ex.sym(node.iter))
+        model = s.sc.interp.ask("(unroll %s)" % job)
+        inside = s.sc.interp.ask("(unrollok %s)" % job).strip() == "ok"
+        real = ex.proc_sexp(q._loopir_proc)
+        defs = {n: sx for (n, sx) in ex.procs.values()}
+        stream = "unroll_loop-model-vs-impl"
+        ck.case(stream, (replay["program"], descr), sample={"loop": str(node.iter)},
+                tag="inside-theorem" if inside else "outside-theorem-hypotheses")
+        un_corr["theorem_applies" if inside else "outside_theorem_hypotheses"] += 1
+        if expand(model, defs) == expand(real, defs):
+            un_corr["same"] += 1
+            ck.corr_agree(stream)
+        else:
+            un_corr["differ"] += 1
+            ck.corr_diverge(stream, {"program": replay["program"], "source": replay["source"],
+                                     "descr": descr, "model": model, "impl": real})
+
+    s.after_apply.append(unroll_model)
     findings = s.run(n_programs=ck.n(60, 600), budget_s=ck.n(110, 1300))
     # second stream: aliasing stress (windows of windows, the same cell reached through two names) under the
     # operations whose side conditions are location-set queries
@@ -210,6 +258,7 @@ def run(ck):
     ck.cov["divide_loop_model_correspondence"] = div_corr
     ck.cov["reorder_loops_model_correspondence"] = reo_corr
     ck.cov["remove_loop_model_correspondence"] = rm_corr
+    ck.cov["unroll_loop_model_correspondence"] = un_corr
     ck.cov["operation_crashes"] = s.crashes
     ck.cov["inputs_run_in_reference_semantics"] = s.sc.runs + s2.sc.runs
     ck.cov["comparisons_where_source_ran_to_completion"] = s.sc.nontrivial
